@@ -54,8 +54,37 @@ fn make_data(rng: &mut Rng, dc: usize, cells: usize) -> Vec<u8> {
 #[allow(clippy::too_many_arguments)]
 fn one_shape(rep: &mut Rep, rng: &mut Rng, w: u8, h: u8, dc: u8, counts: &[u8], deep_rounds: bool) {
     let cells = w as usize * h as usize;
-    let data = make_data(rng, dc as usize, cells);
     let replay = || format!("shape {} {} {}", w, h, dc);
+    let from_new = rng.chance(1, 3);
+    let data = if from_new {
+        // a card whose digits the library draws itself; its geometry and size must be what was asked for
+        match guard(|| MatrixCard::new(dc, h, w)) {
+            Ok(c) => {
+                rep.ev(1);
+                let want = dc as usize * cells;
+                if c.width() != w || c.height() != h || c.digit_count() != dc || c.data().len() != want || MatrixCard::get_matrix_card_size(dc, h, w) != want {
+                    rep.violation(
+                        "c18:new_card_geometry",
+                        format!("MatrixCard::new(digit_count={}, height={}, width={}) has width {} height {} digit_count {} and {} digits (size fn {})", dc, h, w, c.width(), c.height(), c.digit_count(), c.data().len(), MatrixCard::get_matrix_card_size(dc, h, w)),
+                        replay(),
+                    );
+                    return;
+                }
+                if c.data().iter().any(|d| *d > 9) {
+                    rep.violation("c18:new_card_digit_range", "a freshly generated card contains a digit above 9".into(), replay());
+                    return;
+                }
+                rep.count("cards_from_new", 1);
+                c.data().to_vec()
+            }
+            Err(e) => {
+                rep.violation("c18:panic:new", e, replay());
+                return;
+            }
+        }
+    } else {
+        make_data(rng, dc as usize, cells)
+    };
     let card = match guard(|| MatrixCard::from_data(dc, h, w, data.clone())) {
         Ok(Some(c)) => c,
         Ok(None) => {
@@ -67,6 +96,20 @@ fn one_shape(rep: &mut Rep, rng: &mut Rng, w: u8, h: u8, dc: u8, counts: &[u8], 
             return;
         }
     };
+    if rng.chance(1, 8) {
+        rep.ev(2);
+        let mut longer = data.clone();
+        longer.push(1);
+        let shorter = data[..data.len().saturating_sub(1)].to_vec();
+        let a = guard(|| MatrixCard::from_data(dc, h, w, longer).is_some());
+        let b = guard(|| MatrixCard::from_data(dc, h, w, shorter).is_some());
+        // not part of the property statement: recorded as information only
+        if a != Ok(false) || (b != Ok(false) && !data.is_empty()) {
+            rep.count("info_from_data_accepted_wrong_length", 1);
+        } else {
+            rep.count("info_from_data_refused_wrong_length", 1);
+        }
+    }
     // printing order
     let printed: Vec<String> = match guard(|| card.to_printer().collect::<Vec<String>>()) {
         Ok(p) => p,
